@@ -121,6 +121,14 @@ CHECKS["C15"] = dict(
     note=NOTE_A + "; the external dot binary for the acceptance clause", technique="CrossHair-driven exhaustive enumeration of chain "
     "dictionaries through DecayChainViewer, oracle = line-by-line tree comparison of the DOT source", design="§2 C15", engine="crosshair")
 
+CHECKS["C17"] = dict(
+    text=LEVEL_TEXT_B.replace("every reachable (LALR state, follow set); ", "every (LALR state, follow set) reachable with parser stacks up to "
+         "depth 14; ") + "for ampgen.lark the genuine recursion decay -> subdecay -> decay is unrolled to nesting depth 3; plus " + LEVEL_TEXT_A +
+         " (expand_lines on hand-built chains; the real read_ampgen on 864 generated option texts)." + ENUM,
+    note=NOTE_B.replace(".dec files", "inputs"), technique="z3 regex equivalence of the captured ampgen grammar (bounded nesting) with the options "
+    "language + SMT lexer lemmas (names, numbers, spin vs lineshape tags, keywords, line ends); CrossHair-driven runs of expand_lines and read_ampgen",
+    design="§2 C17", engine="smt+crosshair")
+
 PENDING_REASON = "check not built yet in this session (planned, see DESIGN.md §2); not claimed until its quick command runs clean"
 NA = {
     "C20": "quantifies over process histories, interpreter starts and PYTHONHASHSEED values of code that must run untraced "
